@@ -103,7 +103,10 @@ class C15(Property):
                   "independence), and any operation on node n moves a key only to or from n. For every cluster "
                   "script (operations, multi-key Dels, injected store faults, cancelled contexts, ticks): every "
                   "command reaches dispatcher.Get(key)'s node, also as a retry, and a Del reaches the owner of each "
-                  "key. agrees => prop_ok is proved for ring histories (the property check is no oracle). Tied to the "
+                  "key. The ring as a concurrent object (Conc.v: AddWithReplicas = [Remove] ; [insert], two atomic "
+                  "actions): for every set of threads and every schedule the ring invariant holds, Get answers a "
+                  "member owning the successor slot among the layers present, and a node whose Remove is followed by "
+                  "no insertion is never returned. agrees => prop_ok is proved for ring histories. Tied to the "
                   "source by differential execution: ring histories through the public API with murmur3 and a "
                   "small-range hash; cache.New / kv.NewStore clusters over miniredis servers whose command logs give "
                   "the (key, server) touches.")
@@ -124,7 +127,9 @@ class C15(Property):
             "single-node, same node set in different orders, 4-/5-digit colliding ports), scripts of single-key "
             "operations (the whole API of both), Del with 0/1/n keys, Del under an injected server fault or with a "
             "cancelled context, cleaner ticks (first and second retry), per-server snapshots; corpus: the whole API on "
-            "every key. non-trivial = ring: two members, a remove or re-add, some probe changes owner; script: "
+            "every key. concurrency: 2-5 goroutines with 1-3 calls each on one ring, mostly on one contested node, a "
+            "forced schedule at the granularity [Remove] ; [insert] (calls parked between their two critical sections "
+            "by the node's String()), Get for 24 probes after every step. non-trivial = ring: two members, a remove or re-add, some probe changes owner; script: "
             "touches on >= 2 servers; distinct = canonical JSON hash of the case")
     trusted_base = [
         "models theories/C15/Model.v, Cluster.v are hand-written; tie = correspondence runs (harness/cmd/c15) through the public API",
@@ -134,10 +139,14 @@ class C15(Property):
         "cluster scripts: the key(s) named by a redis command are extracted from its arguments by the harness (keysOf); "
         "miniredis pre-hooks log and fail commands; harness/overlay/cache/zz_verif_c15.go ADDS VerifC15CleanerWheel to "
         "package cache (nothing replaced) so that ticks of the cleaner are explicit events",
+        "forced schedules: a call is parked by its node's String() when that is evaluated by AddWithReplicas itself "
+        "after its h.Remove(node) (recognised on the call stack); the executor reports which actions really ran and the "
+        "model is run on that trace",
     ]
     assumptions = ["node identity is lang.Repr(node); the value returned is the value stored by the latest Add of that repr",
-                   "operations are sequential (the RWMutex makes them atomic); cluster scripts are sequential, the cleaner's "
-                   "goroutines are awaited after every tick"]
+                   "the ring's critical sections (Remove; the insertion of AddWithReplicas; Get under the read lock) are atomic: "
+                   "the RWMutex; calls interleave between them. Cluster scripts are sequential, the cleaner's goroutines are "
+                   "awaited after every tick"]
 
     def regen(self, ctx):
         import c15consts
@@ -172,7 +181,7 @@ class C15(Property):
             self._cluster("cache", [100, 1, 0, 50], ["k%d" % i for i in range(24)]),
             self._cluster("kv", [100], ["a", "b", "c"]),
             self._cluster("kv", [10, 100, 100], ["k%d" % i for i in range(24)]),
-        ] + self._script_corpus()
+        ] + self._script_corpus() + self._conc_corpus()
 
     def _ring_corpus(self):
         P = [S("x"), S("key2"), S("key60"), S("key80"), S("key157"), I(42)] + [S("key%d" % i) for i in range(20)]
@@ -250,6 +259,8 @@ class C15(Property):
                                        ["k%d" % rng.randrange(10 ** 6) for _ in range(24)]))
         for j in range(max(12, n // 4)):
             cases.append(self._gen_script(rng))
+        for j in range(max(40, n // 4)):
+            cases.append(self._gen_conc(rng))
         return cases
 
     # ---- cluster scripts (harness/cmd/c15/script.go) ------------------------------------------
@@ -415,6 +426,112 @@ class C15(Property):
                     sops.append(["tick"])
         return self._script(ports, insts, skeys, sops)
 
+    # ---- forced schedules on one ring used by several goroutines (harness/cmd/c15/conc.go) --------
+    def _conc(self, r, nodes, threads, sched, probes):
+        return {"kind": "conc", "r": r, "nodes": [S(x) for x in nodes], "threads": threads, "sched": sched,
+                "probes": probes, "hash": "murmur", "mod": 0, "ops": []}
+
+    @staticmethod
+    def _op_len(o):
+        return 1 if o[0] == "remove" else 2
+
+    def _conc_corpus(self):
+        P = [S("key:%d" % i) for i in range(40)]
+        others = [["add", 1], ["add", 2], ["add", 3]]
+        nodes = ["10.0.0.9:6379", "10.0.0.1:6379", "10.0.0.2:6379", "10.0.0.3:6379"]
+        return [
+            # two racing weight updates of one node: A (50) is parked after its Remove, B (100) runs completely,
+            # A inserts: both layers are in the ring; then the node is removed (and once more)
+            self._conc(0, nodes, [[["addw", 0, 50]], others + [["addw", 0, 100]], [["remove", 0], ["remove", 0]]],
+                       [1, 1, 1, 1, 1, 1, 0, 1, 1, 0, 2, 2], P),
+            # both past their Remove before either inserts; the smaller count lands last; Remove; re-add
+            self._conc(0, nodes, [[["addw", 0, 10]], others + [["add", 0]], [["remove", 0], ["addr", 0, 3], ["remove", 0]]],
+                       [1, 1, 1, 1, 1, 1, 0, 1, 1, 0, 2, 2, 2, 2], P),
+            # three updaters, h.replicas = 150, the largest first, then a Remove racing with a fourth update
+            self._conc(150, nodes, [[["addr", 0, 150]], [["addw", 0, 50], ["remove", 1]], [["addr", 0, 7]],
+                                    others + [["remove", 0], ["addw", 0, 20]]],
+                       [3, 3, 3, 3, 3, 3, 0, 1, 2, 0, 1, 2, 1, 3, 3, 3], P),
+            # an update parked across a Remove of the same node: the insertion after the Remove makes it a member
+            self._conc(0, nodes, [[["addw", 0, 50]], others + [["remove", 0]], [["remove", 0]]],
+                       [1, 1, 1, 1, 1, 1, 0, 1, 0, 2], P),
+        ]
+
+    def _gen_conc(self, rng):
+        pool = rng.choice([["alpha", "beta", "gamma", "delta"], ["10.0.0.1:6379", "10.0.0.2:6379", "10.0.0.3:6379", "10.0.0.9:6379"],
+                           ["node1", "node11", "node2", "node12"], ["a", "a1", "a12", "b"]])
+        nodes = rng.sample(pool, rng.randint(2, 4))
+        if rng.random() < 0.2:
+            nodes.append(nodes[0])          # a second universe value with the same repr
+        R = rng.choice([0, 0, 0, 120, 150])
+        Reff = max(R, 100)
+        hot = rng.randrange(len(nodes))     # the node the threads fight over
+        threads = []
+        for _ in range(rng.randint(2, 4)):
+            ops = []
+            for _ in range(rng.randint(1, 3)):
+                k = hot if rng.random() < 0.65 else rng.randrange(len(nodes))
+                x = rng.random()
+                if x < 0.25:
+                    ops.append(["add", k])
+                elif x < 0.45:
+                    ops.append(["addr", k, rng.choice([0, 1, 5, 10, 50, Reff - 1, Reff, Reff + 50, -3])])
+                elif x < 0.7:
+                    ops.append(["addw", k, rng.choice([0, 1, 10, 50, 99, 100, 150])])
+                else:
+                    ops.append(["remove", k])
+            threads.append(ops)
+        if rng.random() < 0.7:              # the hot node goes away at the end
+            threads.append([["remove", hot]])
+        sched = [i for i, ops in enumerate(threads) for o in ops for _ in range(self._op_len(o))]
+        rng.shuffle(sched)
+        if threads[-1] == [["remove", hot]] and rng.random() < 0.7:
+            sched.remove(len(threads) - 1)
+            sched.append(len(threads) - 1)
+        return self._conc(R, nodes, threads, sched, probes(rng, 24))
+
+    def _conc_steps(self, case, obs):
+        """per schedule step: the actions that really ran, as (kind, node index, requested replicas)"""
+        R = obs["r"]
+        nxt = [0] * len(case["threads"])
+        parked = [None] * len(case["threads"])
+        steps = []
+        for ti, what in zip(case["sched"], obs.get("res") or []):
+            acts = []
+            if what == "ins":
+                o = parked[ti]
+                parked[ti] = None
+                acts.append(("ins", o[1], add_replicas(o, R)))
+            elif what in ("rem", "remins"):
+                o = case["threads"][ti][nxt[ti]]
+                nxt[ti] += 1
+                acts.append(("rem", o[1], None))
+                if what == "remins":
+                    acts.append(("ins", o[1], add_replicas(o, R)))
+                elif o[0] != "remove":
+                    parked[ti] = o
+            steps.append(acts)
+        return steps
+
+    def _coq_conc(self, case, obs):
+        ids = self._ids(obs)
+        allh = set(int(a) for a, _ in obs["ph"])
+        for row in obs["vh"]:
+            allh.update(int(h) for h in row)
+        rank = {h: i for i, h in enumerate(sorted(allh))}
+        rows, seen = [], set()
+        for k, r in enumerate(obs["reprs"]):
+            if r in seen:
+                continue
+            seen.add(r)
+            rows.append("(%d, %s)" % (ids[r], clist(["%d" % rank[int(h)] for h in obs["vh"][k]])))
+        steps = []
+        for acts in self._conc_steps(case, obs):
+            steps.append(clist(["ARemove %d" % ids[obs["reprs"][k]] if kind == "rem" else
+                                "AInsert (mkNode %d %d) %s" % (ids[obs["reprs"][k]], k, cz(r)) for kind, k, r in acts]))
+        ps = clist(["(%d, %s)" % (rank[int(a)], b) for a, b in obs["ph"]])
+        gets = clist([clist([cz(g) for g in row]) for row in obs["gets"]])
+        return "ConcCase (mkConc %s %s %s %s %s)" % (cz(obs["r"]), clist(rows), clist(steps), ps, gets)
+
     def _cluster(self, kind, weights, keys):
         return {"kind": kind, "weights": weights, "hash": "murmur", "mod": 0, "r": 0, "nodes": [], "ops": [],
                 "probes": [S(k) for k in keys]}
@@ -487,6 +604,8 @@ class C15(Property):
                                                           zl(obs.get("touch") or []), zl(obs.get("snap") or []))
 
     def coq_case(self, case, obs):
+        if case.get("kind") == "conc":
+            return self._coq_conc(case, obs)
         if case.get("kind") == "script":
             return self._coq_script(case, obs)
         ids = self._ids(obs)
@@ -685,6 +804,29 @@ class C15(Property):
         return len(hs) == len(set(hs))
 
     def shrink_candidates(self, case):
+        if case.get("kind") == "conc":
+            res = []
+            for ti, ops in enumerate(case["threads"]):
+                for j, o in enumerate(ops):
+                    # drop call j of thread ti together with its schedule steps
+                    first = sum(self._op_len(p) for p in ops[:j])
+                    drop = set(range(first, first + self._op_len(o)))
+                    sched, seen = [], 0
+                    for t in case["sched"]:
+                        if t == ti:
+                            if seen not in drop:
+                                sched.append(t)
+                            seen += 1
+                        else:
+                            sched.append(t)
+                    c = dict(case)
+                    c["threads"] = [l if i != ti else ops[:j] + ops[j + 1:] for i, l in enumerate(case["threads"])]
+                    c["sched"] = sched
+                    res.append(c)
+            if len(case["probes"]) > 4:
+                res.append(dict(case, probes=case["probes"][:len(case["probes"]) // 2]))
+                res.append(dict(case, probes=case["probes"][len(case["probes"]) // 2:]))
+            return res
         if case.get("kind") != "script":
             return Property.shrink_candidates(self, case)
         ops = case["sops"]
@@ -712,6 +854,8 @@ class C15(Property):
         return res[:400]
 
     def nontrivial(self, case, obs):
+        if case.get("kind") == "conc":
+            return any(w == "ins" for w in obs.get("res") or []) and len(set(map(tuple, obs["gets"]))) >= 2
         if case.get("kind") == "script":
             return len(set(t % 64 for row in obs.get("touch") or [] for t in row)) >= 2
         gets = obs["gets"]
@@ -727,6 +871,32 @@ class C15(Property):
         return changed and two and readd
 
     def features(self, case, obs):
+        if case.get("kind") == "conc":
+            fs = ["conc", "conc_threads=%d" % len(case["threads"]), "R=%d" % obs["r"],
+                  "collision_free" if self._cf(obs) else "collisions"]
+            layers, mixed, removed_mixed = {}, False, False
+            for acts in self._conc_steps(case, obs):
+                for kind, k, r in acts:
+                    rp = obs["reprs"][k]
+                    if kind == "rem":
+                        if len(layers.get(rp, [])) >= 2:
+                            removed_mixed = True
+                        layers[rp] = []
+                    else:
+                        layers.setdefault(rp, []).append(r)
+                        if len(layers[rp]) >= 2:
+                            mixed = True
+                            if layers[rp][-1] < max(layers[rp][:-1]):
+                                fs.append("conc_smaller_layer_inserted_last")
+            if mixed:
+                fs.append("conc_two_layers_of_one_node")
+            if removed_mixed:
+                fs.append("conc_remove_of_a_layered_node")
+            if "remins" in (obs.get("res") or []):
+                fs.append("conc_call_not_parked")
+            if any(w == "ins" for w in obs.get("res") or []):
+                fs.append("conc_call_split_by_other_actions")
+            return sorted(set(fs))
         if case.get("kind") == "script":
             fs = ["script", "script_servers=%d" % len(case["ports"]), "script_instances=%d" % len(case["insts"]),
                   "collision_free" if self._cf(obs) else "collisions"]
@@ -777,6 +947,10 @@ class C15(Property):
         return fs
 
     def describe_failure(self, case, obs):
+        if case.get("kind") == "conc":
+            return ("concurrent ring: after a schedule step Get answered a node that has no layer left (its last "
+                    "action is a Remove), none although a node has live virtual nodes, or a value that does not own "
+                    "the successor slot among the live virtual nodes of all layers (res = what each step did)")
         if case.get("kind") == "script":
             return ("cluster script: a command naming a key reached a server other than the one the instance's ring "
                     "designates for that key (touches = key*64+server per step), a key of the operation reached no "
